@@ -17,6 +17,7 @@ fragment's own parent as its parent, and a child of an attribute-held fragment
 may name the fragment or the holding element.
 """
 from .. import core
+import os
 
 PID = 'C06'
 
@@ -37,7 +38,7 @@ META = {
                     'normal form: detached/fresh-fragment arguments, no cycles, spent fragments not reused, '
                     'attribute fragments installed as plasTeX.TeX does and not edited afterwards',
                     'no fault space exists for this property (sequential refinement only)'],
-    'probe_names': ['borrowed_without_reparenting', 'frag_into_frag', 'frag_insert_middle', 'empty_frag', 'equal_text_siblings',
+    'probe_names': ['parsed_tree', 'parsed_raise', 'borrowed_without_reparenting', 'frag_into_frag', 'frag_insert_middle', 'empty_frag', 'equal_text_siblings',
                     'reinsertion_of_removed', 'normalize_merged', 'clone_deep', 'clone_shallow', 'attr_frag',
                     'cmp_deep_common_ancestor', 'setitem_frag', 'detached_target', 'dfs_exhaustive', 'str_argument', 'shadow_container_edit', 'element_with_str', 'insert_beyond_end'],
     'shrink_budget': 500,
@@ -287,7 +288,8 @@ class World(object):
             # living where they are - nothing in the tree, and nothing in the lending fragment, may notice
             view = self.doc.createDocumentFragment()
             if op.get('frag'):
-                src = [m for m in self.nodes if m.kind == 'f' and not m.spent and m.holder is None and m.parent is None and m.children]
+                # detached fragments and fragments held in an attribute (the title of a section)
+                src = [m for m in self.nodes if m.kind == 'f' and not m.spent and m.parent is None and m.children]
                 if not src:
                     return
                 f = src[op['t'] % len(src)]
@@ -857,11 +859,148 @@ def enumerate_cases(base_seed, tier):
             second = r.choice(enabled_ops(w1))
             out.append({'property': PID, 'seed': core.h64('C06-dfs4', base_seed, k), 'swarm': {'pairs': 6},
                         'ops': DFS_INIT + [first, second, {'op': 'DFS', 'depth': 2}]})
+    out += parsed_cases(base_seed, tier)
     return out
+
+
+# --------------------------------------------------------------------------
+# the tree the PARSER builds: its own edits (paragraph grouping, argument fragments, digestion) are sequences of the
+# same operations, so the finished document must satisfy the same link invariants
+
+CATALOGUE = []
+
+
+def prepare():
+    from plasTeX.Logging import disableLogging
+    disableLogging()
+    global CATALOGUE
+    if not CATALOGUE:
+        from .. import macrofuzz
+        CATALOGUE = macrofuzz.build()
+
+
+PARSED_CORPUS = ['unittests/amsthm/source.tex', 'unittests/sources/floats.tex', 'unittests/sources/Alignment.tex',
+                 'unittests/sources/cancel.tex', 'unittests/sources/align.tex', 'unittests/sources/footnotes.tex',
+                 'unittests/Packages/sources/natbib.tex', 'unittests/Packages/sources/pifont.tex', 'unittests/Packages/sources/bib.tex',
+                 'unittests/Packages/sources/textcomp.tex', 'unittests/Packages/sources/babel.tex', 'unittests/Packages/sources/multibib.tex']
+
+
+def parsed_cases(base_seed, tier):
+    import random
+    from . import c17
+    out = []
+
+    def rec(key, ops):
+        out.append({'property': PID, 'seed': core.h64('C06-parsed', key), 'swarm': {'parsed': True}, 'ops': ops})
+    cat = [e[1] for e in CATALOGUE]
+    for j in range(0, len(cat), 10):
+        rec(('cat', j), [{'op': 'PARSE', 'items': ['%s cz%d' % (t, k) for k, t in enumerate(cat[j:j + 10])]}])
+    blocks = sorted(b for b in c17.BLOCKS if not b.endswith('_open') and not c17.NEEDS.get(b))
+    for j in range(0, len(blocks), 8):
+        rec(('blk', j), [{'op': 'PARSE', 'items': [c17.BLOCKS[b][2] % {'n': str(k)} for k, b in enumerate(blocks[j:j + 8])]}])
+    for rel in PARSED_CORPUS + (['Doc/plastex.tex'] if tier == 'thorough' else []):
+        rec(('file', rel), [{'op': 'PARSEFILE', 'rel': rel}])
+    r = random.Random(core.h64('C06-parsed-bags', base_seed))
+    for j in range(60 if tier == 'quick' else 1500):
+        items = []
+        for k in range(r.randint(4, 12)):
+            if cat and r.random() < 0.5:
+                items.append(r.choice(cat) + ' rz%d' % k)
+            else:
+                items.append(c17.BLOCKS[r.choice(blocks)][2] % {'n': str(k)})
+            if r.random() < 0.3:
+                items.append('\n\n')
+        rec(('bag', base_seed, j), [{'op': 'PARSE', 'items': items}])
+    return out
+
+
+def check_parsed(doc):
+    from plasTeX.DOM import Node
+
+    def walk(node):
+        kids = list(node.childNodes) if node.nodeType != Node.TEXT_NODE else []
+        for i, c in enumerate(kids):
+            if c.parentNode is not node:
+                raise Violation('C06|parsed|parent-link', {'lister': node.nodeName, 'child': c.nodeName,
+                                                           'child_parent': getattr(c.parentNode, 'nodeName', None)})
+            if getattr(c, 'ownerDocument', None) is not doc:
+                raise Violation('C06|parsed|owner-document', {'lister': node.nodeName, 'child': c.nodeName})
+            if c.previousSibling is not (kids[i - 1] if i > 0 else None) or c.nextSibling is not (kids[i + 1] if i + 1 < len(kids) else None):
+                raise Violation('C06|parsed|sibling-view', {'lister': node.nodeName, 'child': c.nodeName, 'index': i})
+            walk(c)
+        if kids and (node.firstChild is not kids[0] or node.lastChild is not kids[-1]):
+            raise Violation('C06|parsed|first-last', {'lister': node.nodeName})
+        attrs = getattr(node, 'attributes', None)
+        if attrs:
+            for k, v in attrs.items():
+                if hasattr(v, 'nodeType') and v.nodeType == Node.DOCUMENT_FRAGMENT_NODE:
+                    if v.parentNode is not node:
+                        raise Violation('C06|parsed|attribute-fragment-parent', {'holder': node.nodeName, 'attribute': k,
+                                                                                 'parent': getattr(v.parentNode, 'nodeName', None)})
+                    for c in v.childNodes:
+                        if c.parentNode is not v and c.parentNode is not node:
+                            raise Violation('C06|parsed|parent-link', {'lister': '%s.@%s' % (node.nodeName, k), 'child': c.nodeName,
+                                                                       'child_parent': getattr(c.parentNode, 'nodeName', None)})
+                        walk(c)
+                elif hasattr(v, 'nodeType') and v.nodeType == Node.ELEMENT_NODE:
+                    walk(v)
+    walk(doc)
+
+
+def execute_parsed(record, res):
+    import signal
+    from plasTeX.TeX import TeX
+
+    def alarm(signum, frame):
+        raise TimeoutError()
+    viol = None
+    log = []
+    n = 0
+    for op in record['ops']:
+        if op.get('op') not in ('PARSE', 'PARSEFILE'):
+            continue
+        old = signal.signal(signal.SIGALRM, alarm)
+        signal.alarm(60)
+        cwd = os.getcwd()
+        try:
+            if op['op'] == 'PARSEFILE':
+                path = os.path.join(core.REPO, op['rel'])
+                os.chdir(os.path.dirname(path))
+                tex = TeX(file=path)
+            else:
+                tex = TeX()
+                tex.input('\\documentclass{article}\\begin{document}\\section{S}\\label{fzl1}\\label{sec1}\n%s\n\\end{document}' % ' '.join(op['items']))
+            doc = tex.parse()
+        except BaseException as e:
+            log.append(['raise', type(e).__name__])          # the input does not get through the parser: no tree to judge
+            res['probes']['parsed_raise'] = 1
+            continue
+        finally:
+            signal.alarm(0)
+            signal.signal(signal.SIGALRM, old)
+            os.chdir(cwd)
+        n += 1
+        try:
+            check_parsed(doc)
+            log.append(['ok', len(doc.allChildNodes) if hasattr(doc, 'allChildNodes') else 0])
+        except Violation as v:
+            viol = {'sig': v.sig, 'detail': dict(v.detail, source=(op.get('rel') or ' '.join(op['items'])[:600]))}
+            break
+    res['violations'] = [viol] if viol else []
+    res['probes']['parsed_tree'] = 1
+    res['nontrivial'] = n > 0
+    res['steps'] = n
+    res['digest'] = core.hexdigest(record['ops'])
+    res['log_digest'] = core.hexdigest(log)
+    res['sub_evaluations'] = n
+    res['sub_distinct'] = n
+    return res
 
 
 def execute(record):
     res = core.empty_result()
+    if record.get('swarm', {}).get('parsed'):
+        return execute_parsed(record, res)
     w = World()
     w._removed_once = []
     log = []
@@ -904,3 +1043,13 @@ def execute(record):
     res['digest'] = core.hexdigest(record['ops'])
     res['log_digest'] = core.hexdigest(log)
     return res
+
+
+def simplify(record):
+    if not record.get('swarm', {}).get('parsed'):
+        return
+    ops = record['ops']
+    for i, op in enumerate(ops):
+        if op.get('op') == 'PARSE':
+            for k in range(len(op['items'])):
+                yield dict(record, ops=ops[:i] + [dict(op, items=op['items'][:k] + op['items'][k + 1:])] + ops[i + 1:])
